@@ -12,7 +12,7 @@ EXPLANATION = (
     "of true; (R4) CYCLE-COVER - the production call graph (calls, closures, reified and promoted fn pointers) becomes "
     "acyclic once the memoising wrappers are removed, i.e. every recursion of the grammar passes a memo point. Tree "
     "equality with/without cache and the linear bound itself are measured quantities and are not decided.")
-EXPLANATION += ' Further clause: (R6) MEMO-MONOTONE - Context.cache is written by one insert site and never cleared, evicted or re-assigned, and storing/hitting are conditional on the bypass switch only. (R7) HIT-CONSTANT / RESULT-SHARED - lookup() does no token work on a hit; a memoising wrapper returns the memoised result untouched.'
+EXPLANATION += ' Further clause: (R6) MEMO-MONOTONE - Context.cache is written by one insert site and never cleared, evicted or re-assigned, and storing/hitting are conditional on the bypass switch only. (R7) HIT-CONSTANT / RESULT-SHARED - lookup() does no token work on a hit; a memoising wrapper returns the memoised result untouched. (R8) ARENA-MONOTONE - the syntax arena only grows while parsing.'
 TECHNIQUE = "static analysis: call-graph SCC rule + MIR parameter provenance + HIR constant census"
 
 
@@ -423,7 +423,34 @@ def r6_memo_monotone(c, facts):
             c.ok(R, {'fn': q, callee: 'conditional on no_cache only'})
 
 
+def r8_arena_monotone(c, facts):
+    """a memoised result is a node index into the syntax arena: it stays valid only while nodes are added and attached,
+    never removed, detached or re-parented"""
+    R = c.rule('C12.R8', 'ARENA-MONOTONE: the syntax arena only grows while parsing: a memoised node index is never invalidated')
+    OK_MUT = {'new_node', 'append'}
+    n = 0
+    bad = {}
+    for fn in sorted(facts.fns.values(), key=lambda f: f.qname):
+        if not fn.mir or fn.crate not in ('oal_model', 'oal_syntax'):
+            continue
+        for b, t in fn.calls():
+            info = callee_of(t)
+            if not info or 'indextree' not in info['def']:
+                continue
+            n += 1
+            nm = P.strip(info['def']).split('::')[-1]
+            mutates = any('&mut generational_indextree::Arena' in (a.get('ty') or '') for a in t['args'])
+            if mutates and nm not in OK_MUT:
+                bad.setdefault(nm, set()).add(fn.qname.split('::{closure')[0])
+    c.floor(R, 'uses of the arena API in oal-model / oal-syntax', n, 8)
+    if bad:
+        c.bad(R, 'arena-mutated:%s' % ','.join('%s@%s' % (k, ','.join(sorted(x.split('::')[-1] for x in v))) for k, v in sorted(bad.items())), 'the syntax arena is mutated with %s: a node that a memoised result refers to can be freed or moved, and the next hit returns a stale index' % {k: sorted(v) for k, v in bad.items()})
+    else:
+        c.ok(R, {'arena': 'only new_node / append mutate it', 'uses': n})
+
+
 def run(c, facts):
+    c.run(r8_arena_monotone, facts)
     c.run(r7_hit_constant_and_shared, facts)
     c.run(r6_memo_monotone, facts)
     c.run(r5_only_via_wrapper, facts)
